@@ -16,6 +16,8 @@ PM_NOTE = ("Trusted base: TLC 1.8, spec/PmProps.tla, the fakes of harness/pm_dri
            "raises ProcessLookupError). Real processes and signals are not used; the file watcher thread is replaced by calling schedule_workers_reload.")
 PAR_NOTE = ("Trusted base: TLC 1.8, spec/Params.tla, harness/par_driver.py (exec-generated task functions reporting locals(); 'converted' defined by pydantic.TypeAdapter). "
             "The case analysis (which parameter's annotation is applied to which argument) is enumerated exhaustively; concrete values per class and JSON value fidelity are sampled.")
+EXC_NOTE = ("Trusted base: TLC 1.8, spec/ExcCodec.tla, harness/exc_driver.py (fixture module with recording traps planted in sys.modules; projection of decoded objects "
+            "to same-class / args-equal / names-original flags). Data-shaped property: the case analysis is enumerated, concrete argument values are fixed pools.")
 CHECKS = {
  "C01": ("Receiver.tla model-checked (all interleavings of prefetcher/runner/look-ahead fetch/callbacks, every stop instant) + clauses C01_* of RxProps evaluated by TLC on every prefix of traces recorded from the real Receiver.listen(); conformance of those traces to the model", "5/C01"),
  "C02": ("pipeline model (one action per real suspension) model-checked for 3 ack types x sync/async ack x outcomes x backend failure; clauses C02_* judged on every prefix (= crash point) of real traces", "5/C02"),
@@ -34,6 +36,8 @@ CHECKS = {
  "C16": ("on_ready stage counters (pre_send/cancel/kick payload/post_send) on the same scheduler traces + LabelScheduleSource entry-table model (LabelSrc.tla) model-checked over all entry lists <= 3-4 and firing orders; listing/removal clauses (LblProps) on the real source", "5/C16"),
  "C17": ("process-manager state machine (sleep / drain / scan, action queue, two injection points per tick) model-checked over all histories up to the tick bound; C17 clauses (join before replacement start, slot count, replaced within two ticks) on traces of the real ProcessManager.start() with OS-faithful fakes", "5/C17"),
  "C18": ("same model; budget (exit -1 exactly when max_fails unexpected exits were handled), reload-all (every slot once per tick) and shutdown (live workers signalled once, nothing else, success status) clauses on real traces", "5/C18"),
+ "C19": ("encoder walk with the SEEN-as-current-path rule and the decoder's class/argument decision table transcribed in ExcCodec.tla (unfolding model-checked over all 3-node graphs); every link shape over <= 2-3 nodes x class kinds x argument kinds x {JSON text, JSON dict, pickle} built as real exception objects, round-tripped through TaskiqResult, projected back and judged by TLC", "5/C19"),
+ "C20": ("resolution decision table (module lookup in loaded modules, attribute walk, BaseException gate, recursion into cause/context) in ExcCodec.tla; the whole table x nesting positions x 3 entry points executed against a fixture world of recording traps; outcomes judged by TLC", "5/C20"),
  "C12": ("dependency open/close order modelled after the resolver; C12_* clauses on real traces for all shapes up to 3 teardown-style dependencies; KF-C12-1 classified by signature", "5/C12"),
 }
 PENDING = {
@@ -60,7 +64,7 @@ def main():
             "replay_cmd_template": f"./check {pid} --replay {{path}}",
             "engine": "tlc-model+trace",
             "level_claimed": {"category": "model_checking", "text": text, "design_ref": ref},
-            "level_note": RX_NOTE if pid in ("C01","C02","C03","C04","C05","C06","C07","C10","C12") else (CALC_NOTE if pid in ("C13","C14") else (SCH_NOTE if pid in ("C15","C16") else (PM_NOTE if pid in ("C17","C18") else (PAR_NOTE if pid == "C08" else CL_NOTE)))),
+            "level_note": RX_NOTE if pid in ("C01","C02","C03","C04","C05","C06","C07","C10","C12") else (CALC_NOTE if pid in ("C13","C14") else (SCH_NOTE if pid in ("C15","C16") else (PM_NOTE if pid in ("C17","C18") else (PAR_NOTE if pid == "C08" else (EXC_NOTE if pid in ("C19","C20") else CL_NOTE))))),
             "technique": "explicit TLA+ spec checked by TLC; verdict = spec property clauses evaluated by TLC on traces recorded from the real code; trace conformance to the spec",
         })
     man = {
